@@ -475,7 +475,158 @@ theorem dc_eq_all (T : Table) :
     simp only [okKVs, Bool.and_eq_true, Bool.not_eq_true'] at hok
     simp [dcKVs, kvsEq, vEq_refl, (hv hok.1.2).1 hok.1.1.2, hr hok.2]
 
+/-! ### the constructor refines its attribute-wise specification -/
+
+@[simp] theorem hdV_cons (v : Val) (r : Vals) : hdV (.cons v r) = v := rfl
+@[simp] theorem tlV_cons (v : Val) (r : Vals) : tlV (.cons v r) = r := rfl
+@[simp] theorem hdV_nil : hdV .nil = .missing := rfl
+@[simp] theorem tlV_nil : tlV .nil = .nil := rfl
+
+@[simp] theorem isMissing_missing : Val.missing.isMissing = true := rfl
+
+theorem isMissing_iff (v : Val) : v.isMissing = true ↔ v = .missing := by
+  cases v <;> simp [Val.isMissing]
+
+theorem dcVal_isMissing (v : Val) : (dcVal v).isMissing = v.isMissing := by
+  cases v with
+  | bound o f => cases o <;> rfl
+  | _ => rfl
+
+@[simp] theorem protect_isMissing (a : AttrInfo) (v : Val) : (protect a v).isMissing = v.isMissing := by
+  unfold protect
+  split
+  · rfl
+  · exact dcVal_isMissing v
+
+/-- The value an init-enabled attribute is given by the constructor that owns it. -/
+def assigned (a : AttrInfo) (kv : Val) : Val := if kv.isMissing then a.dflt else protect a kv
+
+/-- `v` if it is a value, else what was there. -/
+def orKeep (v cv : Val) : Val := if v.isMissing then cv else v
+
+theorem orKeep_idem (v cv : Val) : orKeep v (orKeep v cv) = orKeep v cv := by
+  unfold orKeep; split <;> simp_all
+
+/-- One constructor (`spec_cls = p`) seen from one attribute slot. -/
+def slotStep (p : Nat) (a : AttrInfo) (kv cv : Val) : Val :=
+  if a.init && a.owner == p then orKeep (assigned a kv) cv else cv
+
+/-- the slot of one attribute in `parentKwargs` -/
+def slotPk (p : Nat) (a : AttrInfo) (kv : Val) : Val :=
+  if a.owner != p then .missing
+  else if !a.init then .missing
+  else if kv.isMissing then a.dflt
+  else protect a kv
+
+/-- the slot of one attribute in `initOwn` -/
+def slotOwn (p : Nat) (top : Bool) (a : AttrInfo) (kv cv : Val) : Val :=
+  if !a.init || a.owner != p then cv
+  else if kv.isMissing then (if a.dflt.isMissing then cv else a.dflt)
+  else if top then protect a kv else kv
+
+theorem parentKwargs_cons (p : Nat) (a : AttrInfo) (as : List AttrInfo) (kw : Vals) :
+    parentKwargs p (a :: as) kw = .cons (slotPk p a (hdV kw)) (parentKwargs p as (tlV kw)) := rfl
+
+theorem initOwn_cons (p : Nat) (top : Bool) (a : AttrInfo) (as : List AttrInfo) (kw cur : Vals) :
+    initOwn p top (a :: as) kw cur =
+      .cons (slotOwn p top a (hdV kw) (hdV cur)) (initOwn p top as (tlV kw) (tlV cur)) := rfl
+
+/-- A parent constructor called with the forwarded keyword arguments: the slot gets the (copied) passed value,
+else the default — WHATEVER the passed value is. -/
+theorem slotOwn_parent (p : Nat) (a : AttrInfo) (kv cv : Val) :
+    slotOwn p false a (slotPk p a kv) cv = slotStep p a kv cv := by
+  unfold slotOwn slotPk slotStep assigned orKeep
+  cases hi : a.init <;> cases ho : (a.owner == p) <;> simp [bne, ho]
+  cases hk : kv.isMissing <;> simp [hk]
+  cases hd : a.dflt.isMissing <;> simp [hd]
+
+/-- The metadata owner's own constructor. -/
+theorem slotOwn_top (m : Nat) (a : AttrInfo) (kv cv : Val) :
+    slotOwn m true a kv cv = slotStep m a kv cv := by
+  unfold slotOwn slotStep assigned orKeep
+  cases hi : a.init <;> cases ho : (a.owner == m) <;> simp [bne, ho]
+  cases hk : kv.isMissing <;> simp [hk]
+
+/-- All parent constructors, seen from one attribute slot. -/
+def slotParents : List Nat → AttrInfo → Val → Val → Val
+  | [], _, _, cv => cv
+  | p :: ps, a, kv, cv => slotParents ps a kv (slotStep p a kv cv)
+
+theorem initParents_cons : ∀ (ps : List Nat) (a : AttrInfo) (as : List AttrInfo) (kw cur : Vals),
+    hdV (initParents ps (a :: as) kw cur) = slotParents ps a (hdV kw) (hdV cur) ∧
+    tlV (initParents ps (a :: as) kw cur) = initParents ps as (tlV kw) (tlV cur) := by
+  intro ps
+  induction ps with
+  | nil => intro a as kw cur; simp [initParents, slotParents]
+  | cons p ps ih =>
+    intro a as kw cur
+    simp only [initParents, parentKwargs_cons, initOwn_cons, ih, hdV_cons, tlV_cons, slotOwn_parent, slotParents]
+    simp
+
+theorem slotParents_eq (a : AttrInfo) (kv : Val) : ∀ (ps : List Nat) (cv : Val),
+    slotParents ps a kv cv =
+      if a.init && ps.contains a.owner then orKeep (assigned a kv) cv else cv := by
+  intro ps
+  induction ps with
+  | nil => intro cv; simp [slotParents]
+  | cons p ps ih =>
+    intro cv
+    simp only [slotParents, ih, slotStep]
+    cases hi : a.init <;> cases ho : (a.owner == p) <;> cases hc : ps.contains a.owner <;>
+      simp_all [List.contains_cons, orKeep_idem]
+
+/-- **The constructor refines its specification**: run as Python runs it (parent constructors base-most
+first, each assigning the attributes it owns from the forwarded keyword arguments, then the own attributes),
+every attribute ends up showing `shown a kv` — provided each init-enabled attribute is owned by one of the
+constructors that run. -/
+theorem construct_fields_eq (m : Nat) (ps : List Nat) : ∀ (as : List AttrInfo) (kw : Vals),
+    (∀ a ∈ as, a.init = true → (a.owner == m || ps.contains a.owner) = true) →
+    viewFields as (initOwn m true as kw (initParents ps as kw (allMissing as))) = specFields as kw := by
+  intro as
+  induction as with
+  | nil => intro kw _; rfl
+  | cons a as ih =>
+    intro kw h
+    have hcons := initParents_cons ps a as kw (allMissing (a :: as))
+    simp only [initOwn_cons, viewFields, specFields, hdV_cons, tlV_cons, hcons.1, hcons.2]
+    have htl : tlV (allMissing (a :: as)) = allMissing as := rfl
+    have hhd : hdV (allMissing (a :: as)) = .missing := rfl
+    rw [htl, hhd, ih (tlV kw) (fun b hb => h b (List.mem_cons_of_mem _ hb))]
+    congr 1
+    rw [slotOwn_top, slotParents_eq]
+    have ha := h a (List.mem_cons_self ..)
+    unfold slotStep shown orKeep assigned
+    cases hi : a.init
+    · simp
+    · have ha' := ha hi
+      have hin : ((a.owner == m) = true ∨ ps.contains a.owner = true) := by simpa using ha'
+      cases hk : (hdV kw).isMissing <;> cases hd : a.dflt.isMissing <;>
+        cases ho : (a.owner == m) <;> cases hc : ps.contains a.owner <;>
+        first
+        | (exfalso; rcases hin with h | h <;> simp_all; done)
+        | (have hdm := (isMissing_iff _).1 hd; simp [hk, hd, hdm])
+        | simp [hk, hd]
+
 /-! ### re-construction -/
+
+theorem construct_eq_spec {T : Table} {c : Nat} (h : ownersOk T c = true) (kw : Vals) :
+    construct T c kw = specFields (T.attrs c) kw := by
+  unfold construct initFields
+  apply construct_fields_eq
+  intro a ha hi
+  unfold ownersOk at h
+  have := (List.all_eq_true.1 h) a ha
+  simpa [hi] using this
+
+theorem rcFields_cons (a : AttrInfo) (as : List AttrInfo) (v : Val) (r : Vals) :
+    rcFields (a :: as) (.cons v r) =
+      .cons (shown a (if a.init then (match v with
+        | .bound none f => .bound (some origId) f
+        | v => v) else .missing)) (rcFields as r) := rfl
+
+theorem attrEq_refl (T : Table) (v : Val) : attrEq T v v = true := by
+  have := vEq_refl T v
+  cases v <;> simp_all [attrEq]
 
 theorem rc_fields_eq (T : Table) : ∀ (as : List AttrInfo) (fs : Vals),
     okFields fs = true → reconstructible T as fs = true →
@@ -503,11 +654,16 @@ theorem rc_fields_eq (T : Table) : ∀ (as : List AttrInfo) (fs : Vals),
         · exact Or.inl h
         · exact Or.inr (Or.inl (by simpa using h))
         · exact Or.inr (Or.inr h)
-      simp only [rcFields]
+      have hprot : attrEq T (protect a v) v = true := by
+        unfold protect; split
+        · exact attrEq_refl T v
+        · exact hdc
+      rw [rcFields_cons]
+      apply key
+      unfold shown
       cases hi : a.init with
       | false =>
         simp only [Bool.false_eq_true, if_false]
-        apply key
         rcases hd with h | h | h
         · exact Or.inl h
         · rw [hi] at h; cases h.1
@@ -516,16 +672,34 @@ theorem rc_fields_eq (T : Table) : ∀ (as : List AttrInfo) (fs : Vals),
         simp only [if_true]
         cases v with
         | missing =>
-          apply key
+          simp only [isMissing_missing, if_true]
           rcases hd with h | h | h
           · exact Or.inl h
           · simp [Val.isMissing] at h
           · exact Or.inr h
         | bound o f =>
           cases o with
-          | none => apply key; right; simp [attrEq]
-          | some o => apply key; right; exact hdc
-        | _ => apply key; right; exact hdc
+          | none =>
+            right
+            simp only [Val.isMissing, Bool.false_eq_true, if_false]
+            unfold protect; split <;> simp [attrEq, dcVal]
+          | some o => right; simpa [Val.isMissing] using hprot
+        | _ => right; simpa [Val.isMissing] using hprot
+
+theorem nthVal_zero (kw : Vals) : nthVal kw 0 = hdV kw := by cases kw <;> rfl
+theorem nthVal_succ (kw : Vals) (i : Nat) : nthVal kw (i + 1) = nthVal (tlV kw) i := by
+  cases kw <;> simp [nthVal]
+
+theorem nthVal_specFields : ∀ (as : List AttrInfo) (kw : Vals) (i : Nat) (h : i < as.length),
+    nthVal (specFields as kw) i = shown (as[i]) (nthVal kw i) := by
+  intro as
+  induction as with
+  | nil => intro kw i h; simp at h
+  | cons a as ih =>
+    intro kw i h
+    cases i with
+    | zero => simp [specFields, nthVal, nthVal_zero]
+    | succ i => simp [specFields, nthVal, nthVal_succ, ih (tlV kw) i (by simpa using h)]
 
 /-! ### repr -/
 
